@@ -59,7 +59,7 @@ class Ctx:
         self.forks = {}  # value-fork call sites -> count (diagnostics)
         self.has_fp = False
         self.vars = {}  # name -> z3 constant (inputs and fresh variables), for cvc5 models
-        self.fp_z3_budget_ms = 400
+        self.fp_z3_rlimit = 700000  # about 0.4 s on this image
         self.fp_tlimit_s = 60
         self._sat_model = None
 
@@ -71,12 +71,14 @@ class Ctx:
         t = time.time()
         self._sat_model = None
         if self.has_fp:
-            self.solver.set("timeout", self.fp_z3_budget_ms)
+            # a resource limit, not a timer: deterministic, and z3 5.1 segfaults sporadically
+            # when its timer thread cancels a floating-point query
+            self.solver.set("rlimit", self.fp_z3_rlimit)
         try:
             r = self.solver.check(*extra)
         finally:
             if self.has_fp:
-                self.solver.set("timeout", self.timeout_ms)
+                self.solver.set("rlimit", 0)
         self.qtime += time.time() - t
         if r == z3.sat:
             self._sat_model = self.solver.model()
